@@ -10,5 +10,10 @@ sed -i "s#path = \"/repo\"#path = \"$SR\"#" $SV/harness/Cargo.toml
 sed -i "s#REPO = \"/repo\"#REPO = \"$SR\"#" $SV/tools/t2nlib.py
 sed -i "s#/repo#$SR#g" $SV/tools/seedtest.py
 (cd $SV && python3 tools/seedtest.py "$@")
-for d in $SV/seeded/*/; do n=$(basename $d); [ -f $d/meta.json ] && cp $d/meta.json /verif/seeded/$n/meta.json; done
-sed -i "s#$SV#/verif#g; s#$SR#/repo#g" /verif/seeded/*/meta.json
+# copy back the records of the seeds that were run (all of them when no prefix was given), with the fork's paths undone
+for d in $SV/seeded/*/; do
+  n=$(basename $d); [ -f $d/meta.json ] || continue
+  hit=0; [ $# -eq 0 ] && hit=1
+  for pre in "$@"; do case "$n" in "$pre"*) hit=1;; esac; done
+  [ $hit -eq 1 ] && sed "s#$SV#/verif#g; s#$SR#/repo#g" $d/meta.json > /verif/seeded/$n/meta.json
+done
